@@ -61,8 +61,8 @@ META.update({
         text="Exploration: generated session histories (registrations, subscriptions of every form, broker grants/refusals) interleaved with client PUBLISH packets over all flag combinations, topic-ID types 0-3, known/unknown/shadowed IDs and boundary payload sizes; after every PUBLISH the broker byte stream is parsed by the independent MQTT parser and compared with what the client's topic ID denotes at that moment according to a model rebuilt from the trace (exactly one unchanged PUBLISH, or none when the ID denotes nothing).",
         note=_GW_NOTE, technique="stateful PBT against a topic-knowledge reference model; differential parse of the broker stream"),
     "C02": dict(
-        text="Exploration: generated histories with broker PUBLISH packets on short, predefined (own, '*'-only, shadowed), registered and brand-new names (also two at the same instant); the scripted client resolves every received PUBLISH using only what it accepted itself and the shared predefined configuration (reference lookup); name, payload, QoS and retain must match the broker's.",
-        note=_GW_NOTE + " Message-ID collisions between exchanges of opposite directions are excluded here by construction (they are C06's subject).", technique="stateful PBT; oracle = independent client-side resolution model"),
+        text="Exploration: generated histories with broker PUBLISH packets on short, predefined (own, '*'-only, shadowed), registered and brand-new names (also two at the same instant, and at the same instant as the client's own REGISTER of that name); the scripted client resolves every received PUBLISH using only what it accepted itself and the shared predefined configuration (reference lookup); name, payload, QoS and retain must match the broker's.",
+        note=_GW_NOTE + " Message-ID collisions between exchanges of opposite directions are excluded here by construction (they are C06's subject). Orderings between the gateway's two receive loops are explored only as far as the Go scheduler produces them: a schedule-dependent regression replay is repeated 1500 times.", technique="stateful PBT; oracle = independent client-side resolution model"),
     "C03": dict(
         text="Exploration: generated SUBSCRIBE/UNSUBSCRIBE/PUBREL/PINGREQ/DISCONNECT traffic and broker acknowledgements with return codes drawn independently of the requests; per step exactly one translated packet with the same message ID, resolved filter, requested QoS, acceptance iff code <= 2, granted QoS and the expected topic ID.",
         note=_GW_NOTE, technique="stateful PBT with a one-to-one translation model"),
